@@ -2212,7 +2212,11 @@ def fix_view_arrays(system):
         System object to be fixed
     """
 
-    system.set_var_arrays(system.models)
+    # only models with assigned addresses have arrays in `dae` to point to;
+    # others (e.g., not in use, or dynamic models before TDS init) have empty addresses
+    models = OrderedDict((name, mdl) for name, mdl in system.models.items()
+                         if mdl.flags.address is True)
+    system.set_var_arrays(models)
 
     for model in system.models.values():
         model.get_inputs(refresh=True)
